@@ -3,6 +3,7 @@
   Property theorems only (helper lemmas live in InjModel/Lemmas).
 -/
 import InjModel.Lemmas.X86
+import InjModel.Lemmas.Machine
 namespace Inj.Props
 open Inj Inj.X86 Inj.Generated
 
@@ -35,6 +36,39 @@ theorem C01_release_total (ori target : Nat) :
   · exact ⟨_, rfl⟩
   · exact ⟨_, rfl⟩
 
+/-- **Installed state, any placement.**  After a successful installation of a fake for `func`
+    with the trampoline at `jit` — for *every* function address (any in-page offset, including
+    entries that span two pages), every trampoline address and every fake address, the only
+    layout assumption being that the fresh trampoline page does not overlap the entry bytes —
+    executing from `func` in any CPU state reaches exactly `fake` within four instructions,
+    nothing but rip and rax having changed; and the installation itself did not fault. -/
+theorem C01_reach (mode : Mode) (s s1 : Machine.MState) (func fake jit : Nat)
+    (h : Machine.installX86 mode s func (Machine.Payload.exec fake) jit = some s1)
+    (hdis : ∀ x, (jit ≤ x ∧ x < jit + 4096) → ¬ (func ≤ x ∧ x < func + 12))
+    (hf : func < 18446744073709551616) (hj : jit < 18446744073709551616) (hk : fake < 18446744073709551616)
+    (c : Cpu) (hc : c.rip = func) :
+    (∃ k c', k ≤ 4 ∧ run s1.mem k c = some c' ∧ c'.rip = fake ∧ Machine.SameButRax c c') ∧
+    s1.fault = s.fault := by
+  refine ⟨Machine.install_reaches mode s s1 func fake jit h hdis hf hj hk c hc, ?_⟩
+  obtain ⟨_, _, _, _, _, _, _, hfault⟩ := Machine.installX86_spec mode s s1 func _ jit h
+  exact hfault
+
+/-- **Loud or done.**  A release build never refuses an installation once the trampoline is
+    allocated; a debug build refuses only by a panic of an encoder (signed overflow), in which
+    case the model has no successor state: nothing was written at `func`. -/
+theorem C01_install_total_release (s : Machine.MState) (func jit : Nat) (p : Machine.Payload) :
+    ∃ s1, Machine.installX86 Mode.release s func p jit = some s1 := by
+  unfold Machine.installX86
+  obtain ⟨br, hbr⟩ := C01_release_total func jit
+  cases p with
+  | exec fake =>
+    obtain ⟨code, hcode⟩ := C01_release_total jit fake
+    simp only [Machine.payloadCode, hcode, hbr]
+    exact ⟨_, rfl⟩
+  | bool v =>
+    simp only [Machine.payloadCode, hbr]
+    exact ⟨_, rfl⟩
+
 /-- non-vacuity: a short, a long and a boundary placement -/
 example : genBranch Mode.debug 0x1000 0x2000 = Res.ok [0xE9, 0xFB, 0x0F, 0, 0] := by decide
 example : genBranch Mode.debug 0x1000 0x80001005 = Res.ok [0x48, 0xB8, 5, 0x10, 0, 0x80, 0, 0, 0, 0, 0xFF, 0xE0] := by decide
@@ -44,3 +78,5 @@ end Inj.Props
 
 #print axioms Inj.Props.C01_branch_lands
 #print axioms Inj.Props.C01_release_total
+#print axioms Inj.Props.C01_reach
+#print axioms Inj.Props.C01_install_total_release
